@@ -223,3 +223,18 @@ Proof.
   assert (Hwf : wf part_overlap_witness) by (intros w [<-|[<-|[]]]; cbn; lia).
   specialize (H Hwf 0 1 4 eq_refl). vm_compute in H. discriminate.
 Qed.
+
+(** The hypotheses of the conditional theorem are satisfiable. *)
+Example partition_separated_example :
+  wf [PW [0] [1] false 1 3 None; PW [0] [1; 2] false 4 6 None] /\
+  separatedG (fun w => separates w 0 1) [PW [0] [1] false 1 3 None; PW [0] [1; 2] false 4 6 None].
+Proof.
+  split.
+  - intros w [<-|[<-|[]]]; cbn; lia.
+  - intros i j a b Hij Hi Hj _ _ _ _.
+    destruct i as [|[|i]]; destruct j as [|[|j]]; cbn in Hi, Hj;
+      try congruence; try (injection Hi as <-); try (injection Hj as <-);
+      try (destruct i; discriminate); try (destruct j; discriminate).
+    + left. exists 3. cbn. repeat split; lia.
+    + right. exists 3. cbn. repeat split; lia.
+Qed.
